@@ -16,6 +16,15 @@ func pt(kind string, p any) {
 	t.Point(vsched.Op{Kind: kind, Obj: t.C().ObjID(p)})
 }
 
+// stored tells a harness that watches p (vsched.WatchStores) which value was just stored.
+func stored(p any, v any) {
+	t := vsched.Cur()
+	if t == nil || t.Aborting() {
+		return
+	}
+	t.C().NotifyStore(p, v)
+}
+
 // Bool is atomic.Bool.
 type Bool struct{ v atomic.Bool }
 
@@ -84,12 +93,16 @@ func (x *Uint64) CompareAndSwap(o, n uint64) bool {
 type Value struct{ v atomic.Value }
 
 func (x *Value) Load() any      { pt("aload", x); return x.v.Load() }
-func (x *Value) Store(v any)    { pt("astore", x); x.v.Store(v) }
+func (x *Value) Store(v any)    { pt("astore", x); x.v.Store(v); stored(x, v) }
 func (x *Value) Swap(v any) any { pt("aswap", x); return x.v.Swap(v) }
 func (x *Value) CompareAndSwap(o, n any) bool {
 	pt("acas", x)
+	ok := x.v.CompareAndSwap(o, n)
+	if ok {
+		stored(x, n)
+	}
 
-	return x.v.CompareAndSwap(o, n)
+	return ok
 }
 
 // Pointer is atomic.Pointer.
@@ -142,3 +155,12 @@ func CompareAndSwapUint64(p *uint64, o, n uint64) bool {
 
 	return atomic.CompareAndSwapUint64(p, o, n)
 }
+
+// Peek methods read the value WITHOUT a scheduling point: for scheduler conditions and harness oracles only.
+
+func (x *Bool) Peek() bool     { return x.v.Load() }
+func (x *Int32) Peek() int32   { return x.v.Load() }
+func (x *Int64) Peek() int64   { return x.v.Load() }
+func (x *Uint32) Peek() uint32 { return x.v.Load() }
+func (x *Uint64) Peek() uint64 { return x.v.Load() }
+func (x *Value) Peek() any     { return x.v.Load() }
